@@ -877,11 +877,8 @@ func C13(t Tier) int {
 	run := report.NewRun("C13", t.Name, "model_checking", "E1+E2")
 	dl := deadline(t, 100*time.Second, 15*time.Minute)
 	A := world.NewAccount("A")
-	injects := []*aolInject{
-		nil,
-		{Owners: [][]byte{{0x41}, append(append([]byte{}, A.Addr...), 0x01), bytes.Repeat([]byte{0x42}, 32), bytes.Repeat([]byte{0x43}, 255), A.Addr[:19]},
-			Topics: []string{"a", "ab", "abc", strings.Repeat("z", 70)}},
-	}
+	_ = A
+	injects := []*aolInject{nil, c13Inject()}
 	depth := 4
 	if t.Thorough {
 		depth = 5
@@ -902,4 +899,10 @@ func C13(t Tier) int {
 		"pagination matrix per listing: nil; key walk and offset 0..N+1 for limit in {1,2,N+1} x reverse x count_total",
 	}
 	return run.Finish()
+}
+
+func c13Inject() *aolInject {
+	A := world.NewAccount("A")
+	return &aolInject{Owners: [][]byte{{0x41}, append(append([]byte{}, A.Addr...), 0x01), bytes.Repeat([]byte{0x42}, 32), bytes.Repeat([]byte{0x43}, 255), A.Addr[:19]},
+		Topics: []string{"a", "ab", "abc", strings.Repeat("z", 70)}}
 }
